@@ -89,12 +89,13 @@ func nodesOfType(root *packages.Package, e ast.Node, tn string) []*ast.Composite
 func C03(c *Ctx) {
 	r := c.R
 	r.Technique = "structural rules on the front-end that actually runs (the syntax tree of pigeon.go: grammar literal and action methods) and on ast.CharClassMatcher.parse: position discipline of node constructors, rule-reference chain of the precedence levels, operator and escape tables"
-	r.Explanation = "The statement as a whole (every spelling of every construct yields the denoted AST; print/re-parse round trip) is a behavioural statement about a PEG run on all texts and the repository has no printer: not decided. Three structural necessary conditions are decided on the generated front-end pigeon.go (its agreement with grammar/pigeon.peg and with the template is C20): (a) every ast.New* node constructor called from a grammar action receives c.astPos() (or a local initialised from it), and astPos copies line/col/offset in that order, so with C02-a every node is positioned at the first token of its match; (b) the rule-reference chain of the literal realises the documented binding strength recover < choice < action < sequence < label < prefix < suffix < primary: each level references the next tighter level and no looser one, and PrimaryExpr re-enters Expression only between \"(\" and \")\"; (c) RuleDefOp has exactly the four documented operators, the single-character escapes the grammar accepts are ones strconv.UnquoteChar decodes, and the digit counts CharClassMatcher.parse consumes per escape letter equal the digit references of the corresponding escape rules. Not decided: acceptance of all layouts, comments and terminators, decoded escape values, the round trip."
+	r.Explanation = "The statement as a whole (every spelling of every construct yields the denoted AST; print/re-parse round trip) is a behavioural statement about a PEG run on all texts and the repository has no printer: not decided. Three structural necessary conditions are decided on the generated front-end pigeon.go (its agreement with grammar/pigeon.peg and with the template is C20): (a) every ast.New* node constructor called from a grammar action receives c.astPos() (or a local initialised from it), and astPos copies line/col/offset in that order, so with C02-a every node is positioned at the first token of its match; (b) the rule-reference chain of the literal realises the documented binding strength recover < choice < action < sequence < label < prefix < suffix < primary: each level references the next tighter level and no looser one, and PrimaryExpr re-enters Expression only between \"(\" and \")\"; (c) RuleDefOp has exactly the four documented operators, the single-character escapes the grammar accepts are ones strconv.UnquoteChar decodes, and the digit counts CharClassMatcher.parse consumes per escape letter equal the digit references of the corresponding escape rules. Also decided on the grammar literal: the layout discipline (C03-f) and that a line break inside a comment ends a rule like any other line break (C03-g: it does not - finding F22). Not decided: acceptance of all layouts, comments and terminators beyond these clauses, decoded escape values, the round trip."
 	r.Assumptions = []string{"C20-b/d tie pigeon.go to the template and to grammar/pigeon.peg", "C02-a: c.pos is the start of the match"}
 	r.Rule("C03-a", "every call ast.New<Node>(pos, …) inside an on<Rule><n> method passes c.astPos() or a local whose only definition is c.astPos(); astPos returns ast.Pos{Line: c.pos.line, Col: c.pos.col, Off: c.pos.offset}")
 	r.Rule("C03-b", "precedence chain Expression→RecoveryExpr→ChoiceExpr→ActionExpr→SeqExpr→LabeledExpr→PrefixedExpr→SuffixedExpr→PrimaryExpr: refs(level i) ∩ chain ⊆ {level i+1} and contains it; refs(PrimaryExpr) ∩ chain = {Expression}, between \"(\" and \")\"")
 	r.Rule("C03-d", "operator-to-node mapping of the grammar actions: & → AndExpr, ! → NotExpr; ? → ZeroOrOneExpr, * → ZeroOrMoreExpr, + → OneOrMoreExpr; # → StateCodeExpr, & → AndCodeExpr, ! → NotCodeExpr; the operator rules accept exactly these characters; the operand / code block is stored in the constructed node; the recovery chain is built left-nested (Expr = chain so far)")
 	r.Rule("C03-f", "layout: `__` is a repetition over white space, line ends and both comment forms; `_` (no line end) is referenced by EOS only; in every syntactic rule of the grammar literal (a rule that reaches `__`) any two items that can match next to each other - adjacent items of a sequence, skipping items that may match nothing, and consecutive iterations of a repetition - are separated by a layout reference")
+	r.Rule("C03-g", "any layout ends a rule: the alternative of EOS that ends a rule at a line end can pass over a comment that spans lines (it reaches MultiLineComment), since a line break inside a comment is a line break")
 	r.Rule("C03-e", "CharClassMatcher.parse keeps every member: each iteration of the reading loop that obtained a rune appends to chars or UnicodeClasses, each iteration of the extraction loop appends to Chars or Ranges")
 	r.Rule("C03-c", "RuleDefOp = {\"=\", \"<-\", U+2190, U+27F5}; SingleCharEscape ⊆ {a,b,f,n,r,t,v,\\}; CharClassMatcher.parse consumes x→2, u→4, U→8, octal→2 further digits, equal to the digit references of HexEscape / ShortUnicodeEscape / LongUnicodeEscape / OctalEscape")
 
